@@ -520,6 +520,34 @@ Inductive terr (we : bool) : ctx -> env -> role -> Prop :=
 Definition literal (t : texpr) : bool :=
   forallb (fun p => match p with PLit _ => true | _ => false end) t.
 
+(* ---------- nesting: the occurrences of role templates that a load processes ----------
+   [occ c loc r c' loc' r']: while (r, c, loc) is processed, the template r' is processed under
+   the parent maps c' with the locals loc' — r itself; every element of an iterator's range (the
+   copy made for it carries the iteration variable as its only local); every child template of an
+   aggregator copy that is enabled and whose own fields evaluate (the child sees the copy's
+   defaults and vars — hence the iteration variables of all enclosing iterators — on top of the
+   parent's).  Any depth, any mixture of iterators and aggregators. *)
+Inductive occ : ctx -> env -> role -> ctx -> env -> role -> Prop :=
+| Occ_here : forall c loc r, occ c loc r c loc r
+| Occ_elem : forall c loc fs k b kids vals v c' loc' r',
+    range_vals (stack [] c) fs = Some vals -> In v vals ->
+    occ c [(f_var fs, v)] (Role None k b kids) c' loc' r' ->
+    occ c loc (Role (Some fs) k b kids) c' loc' r'
+| Occ_kid : forall c loc b kids s i kid c' loc' r',
+    eval (stack loc c) (r_enabled b) = Some s -> is_true s = true -> stages c loc b s = Some i ->
+    In kid kids -> occ (child_ctx c i) [] kid c' loc' r' ->
+    occ c loc (Role None KAgg b kids) c' loc' r'.
+
+(* the loaded tree and everything below it *)
+Definition nodes (t : onode) : list onode := t :: desc t.
+
+(* number of copies held by each iterator container, in preorder *)
+Fixpoint profile (n : onode) : list N :=
+  match n with
+  | ONode _ _ _ ks => flat_map profile ks
+  | OIter _ _ ks => N.of_nat (length ks) :: flat_map profile ks
+  end.
+
 (* ---------- canonical form compared with the dump of the implementation ---------- *)
 Fixpoint str_leb (a b : str) : bool :=
   match a, b with
@@ -617,6 +645,8 @@ Definition corr15 (k : c15_case) : bool :=
    7 a role that is not enabled is present below the root
    8 the load failed although no template error is live
    9 any other difference to the reference tree
+   10 ... and some iterator container holds a number of copies that no reading of the property
+      gives it (an iterator expanded over a range that is not the one of its own scope)
    11/12/13 data race reported at site 1/2/3
    20 no observation *)
 Definition obs_enabled_ok (t : onode) : bool :=
@@ -627,6 +657,16 @@ Definition obs_no_bare_agg (t : onode) : bool :=
 
 Definition ref_vis (f : flags) (c : ctx) (r : role) : voutcome :=
   vis_of (outcome_of (proc f r c [])).
+
+(* the iterator containers of the loaded tree hold as many copies as those of a reference *)
+Definition all_flags : list flags :=
+  [ideal; coded; mkFlags true false false; mkFlags false true false; mkFlags false false true;
+   mkFlags true true false; mkFlags true false true; mkFlags false true true].
+Definition prof_is (f : flags) (c : ctx) (r : role) (t : onode) : bool :=
+  match proc f r c [] with
+  | Ok m => list_eqb N.eqb (profile t) (profile m)
+  | Err => false
+  end.
 
 Definition mon_load (c : ctx) (r : role) (o : outcome) : N :=
   let direct := match o with
@@ -647,7 +687,10 @@ Definition mon_load (c : ctx) (r : role) (o : outcome) : N :=
     else match ref_vis ideal c r, v with
          | VErr, VTree _ => 6
          | VTree _, VErr => 8
-         | _, _ => 9
+         | _, _ => match o with
+                   | OTree t => if existsb (fun f => prof_is f c r t) all_flags then 9 else 10
+                   | OErr => 9
+                   end
          end.
 
 Definition mon15 (k : c15_case) : N :=
@@ -664,7 +707,9 @@ Definition mon15 (k : c15_case) : N :=
 (* ---------- branch tag (input distribution) ----------
    bit 0 the model fails; bit 1 the template has an iterator; bit 2 some `enabled` is not the
    literal true; bit 3 coded and reference loader differ on it; bit 4 something was pruned or
-   expanded (visible roles <> template roles) *)
+   expanded (visible roles <> template roles); bit 5 race case; bit 6 an iterator inside the
+   template of an iterator has a range that is an expression (not a literal); bit 7 iterators are
+   nested three deep or more *)
 Fixpoint role_count (r : role) : nat :=
   match r with Role _ _ _ kids => S (fold_right (fun k a => role_count k + a)%nat O kids) end.
 Fixpoint has_for (r : role) : bool :=
@@ -679,6 +724,26 @@ Fixpoint vis_count (n : onode) : nat :=
   | ONode _ _ _ ks => S (fold_right (fun k a => vis_count k + a)%nat O ks)
   end.
 
+(* an iterator inside the template of an iterator, its range given by an expression *)
+Definition range_literal (fs : forspec) : bool :=
+  match f_range fs with
+  | RExpr t => literal t
+  | RBeginEnd b e => literal b && literal e
+  end.
+Fixpoint nested_dep (inside : bool) (r : role) : bool :=
+  match r with
+  | Role fo _ _ kids =>
+    match fo with
+    | Some fs => (inside && negb (range_literal fs)) || existsb (nested_dep true) kids
+    | None => existsb (nested_dep inside) kids
+    end
+  end.
+Fixpoint for_depth (r : role) : nat :=
+  match r with
+  | Role fo _ _ kids =>
+    (match fo with Some _ => 1 | None => 0 end + fold_right (fun k a => Nat.max (for_depth k) a) O kids)%nat
+  end.
+
 Definition tag15 (k : c15_case) : N :=
   match k with
   | CLoad c r _ =>
@@ -691,6 +756,8 @@ Definition tag15 (k : c15_case) : N :=
        | Ok t => if Nat.eqb (vis_count t) (role_count r) then 0 else 16
        | Err => 0
        end)
+    + (if nested_dep false r then 64 else 0)
+    + (if Nat.leb 3 (for_depth r) then 128 else 0)
   | CRace _ => 32
   end.
 
